@@ -44,6 +44,10 @@ REV = {"eq": "eq", "ne": "ne", "lt": "gt", "gt": "lt", "le": "ge", "ge": "le"}
 IDENT = re.compile(r"^[A-Za-z0-9_]*$")
 MICROS = [(0, "final", 0), (7, "candidate", 2)]
 
+# which consider_sys_version_info the tree has (translate/reach_tables.open_slice_fix(), set in run()/replay());
+# the model variant is chosen accordingly — theorem tables_match_source ties the flag to the source
+OPEN_SLICE_FIX = False
+
 # entries of the `or` / `and` tables whose *run-time* component is wrong on the unchanged tree
 # (Lean: Reach.badOr / Reach.badAnd, theorem not_tables_runtime_sound); (table, left, right) ↦ value claimed
 KNOWN_BAD_TABLE = {
@@ -402,7 +406,8 @@ def model_line(real: Real, c: Case, platform: str, targets_micros, at, af) -> st
         else:
             names = names2 = opq = opq2 = ""
         entries.append(f"{ma}.{mi}.{mc[0]}.{mc[1]}.{mc[2]} ~ {names} ~ {names2} ~ {opq} ~ {opq2}")
-    return f"{platform or '%'} {','.join(at) or '-'} {','.join(af) or '-'} | {' '.join(c.tokens)} | {' ; '.join(entries)}"
+    return (f"{platform or '%'} {','.join(at) or '-'} {','.join(af) or '-'} fix={int(OPEN_SLICE_FIX)} | {' '.join(c.tokens)} | "
+            + " ; ".join(entries))
 
 
 def run_driver(ctx: Ctx, lines: list[str]) -> list[str]:
@@ -454,6 +459,18 @@ def f4_shape(tree, major: int, minor: int):
     if t == (major, minor)[lo:] and op in ("eq", "ne", "le", "gt"):
         return op
     return None
+
+
+def open_equal_shape(tree, major: int, minor: int) -> bool:
+    """an open-ended slice of sys.version_info against the tuple equal to the target's (major, minor)[lo:], any operator
+    (F4 is this shape under ==, !=, <=, >)"""
+    if not (isinstance(tree, ast.Compare) and len(tree.ops) == 1 and type(tree.ops[0]) in OPNAME):
+        return False
+    for op in (ast.Eq, ast.Lt):
+        probe = ast.Compare(left=tree.left, ops=[op()], comparators=tree.comparators)
+        if f4_shape(probe, major, minor) is not None:
+            return True
+    return False
 
 
 class Checker:
@@ -616,8 +633,11 @@ def block_flags(ctx: Ctx, real: Real, cases: list[Case], target, platform, nativ
 # -------------------------------------------------------------------------------------------------- main
 def run(ctx: Ctx) -> None:
     t0 = time.time()
+    global OPEN_SLICE_FIX
     from translate import reach_tables
     reach_tables.main()
+    OPEN_SLICE_FIX = reach_tables.open_slice_fix()
+    ctx.coverage["reach_open_slice_rule_in_tree"] = OPEN_SLICE_FIX
     proved = ctx.prove("MypyVerif.Props.C12Reach", MODEL_FILES + ["MypyVerif/Gen/ReachTables.lean"])
     ctx.trusted("translator translate/reach_tables.py (inverted_truth_mapping, reverse_op read from the module; and/or branches, "
                 "fixed_comparison and special names tabulated by running the real functions) → theorem tables_match_source",
@@ -676,6 +696,15 @@ def run(ctx: Ctx) -> None:
     # observation point: Block.is_unreachable after a real build
     # a target new enough for every piece of syntax the generators use (f-strings, 1_0)
     btarget = rng.choice([t for t in targets if t[1] >= 8] or [(3, 12)])
+    # always include the open-ended-slice shapes for this very target (F4 / the rule of proposed_fix_F4)
+    have = {c.src for c in prepared_for_blocks}
+    for src in [f"sys.version_info {op} ({btarget[0]}, {btarget[1]})" for op in OPSYM.values()] + \
+               [f"({btarget[0]}, {btarget[1]}) {op} sys.version_info" for op in ("<", ">=")] + \
+               [f"sys.version_info[1:] {op} ({btarget[1]},)" for op in ("==", ">")] + [f"sys.version_info[0:] != ({btarget[0]}, {btarget[1]})"]:
+        if src not in have:
+            c = prepare(real, src, "version")
+            if c is not None:
+                prepared_for_blocks.append(c)
     blk_lines = [model_line(real, c, "linux", [(btarget, MICROS[0])], (), ()) for c in prepared_for_blocks]
     blk_model = run_driver(ctx, blk_lines)
     for native in (False, True):
@@ -704,7 +733,11 @@ def run(ctx: Ctx) -> None:
                         g = real.globals(btarget[0], btarget[1], MICROS[0], "linux", True)
                         mt = real.truth(c.code_sub, g)
                         if (bu and mt == "1") or (eu and mt == "0"):
-                            ctx.report({"sub": "reach", "class": "live-branch-marked-unreachable", "parser": "native" if native else "default"},
+                            cls = "live-branch-marked-unreachable"
+                            if native and open_equal_shape(c.tree, btarget[0], btarget[1]):
+                                # the reachability pass inside ast_serialize (Rust) has its own version rule
+                                cls = "native-parser-keeps-old-open-slice-rule"
+                            ctx.report({"sub": "reach", "class": cls, "parser": "native" if native else "default"},
                                        f"`if {c.src}:` target {btarget}: body unreachable={bu}, else unreachable={eu}, but the condition is {mt} "
                                        "when evaluated with TYPE_CHECKING=True",
                                        {"sub": "reach", "src": c.src, "target": list(btarget), "platform": "linux", "native_parser": native,
@@ -725,6 +758,9 @@ def run(ctx: Ctx) -> None:
 
 
 def replay(ctx: Ctx, det: dict) -> int:
+    global OPEN_SLICE_FIX
+    from translate import reach_tables
+    OPEN_SLICE_FIX = reach_tables.open_slice_fix()
     real = Real()
     src = det["src"]
     ma, mi = det["target"]
